@@ -2,8 +2,12 @@
 import collections
 import concurrent.futures
 import subprocess
+import sys
 
 import c03
+
+# parse_tree follows the observed shape recursively: a degenerate treap (what a broken generator produces) is as deep as it is large
+sys.setrecursionlimit(max(sys.getrecursionlimit(), 50000))
 
 ID = "C16"
 CRATE = "c03"
